@@ -280,6 +280,18 @@ def propagate(trees):
     """in place; -> {module: number of substitutions}"""
     DICT_TABLES.clear()
     mods = dict((m, _collect(m, t)) for m, t in trees.items())
+    # a class-level name bound in two classes of the package may be an override: `self.NAME` then depends on the instance
+    seen_attr = {}
+    for t in trees.values():
+        for cls in [n for n in ast.walk(t) if isinstance(n, ast.ClassDef)]:
+            for st in cls.body:
+                if isinstance(st, ast.Assign):
+                    for tg in st.targets:
+                        if isinstance(tg, ast.Name):
+                            seen_attr[tg.id] = seen_attr.get(tg.id, 0) + 1
+    for m in mods:
+        mc_, cc_ = mods[m]
+        mods[m] = (mc_, dict((k, v) for k, v in cc_.items() if seen_attr.get(k[1], 0) == 1))
     # constants of module M qualified for use from another module: chains rooted at M's own import aliases are kept as they are
     # only when they are plain literals (a foreign `utils.ListType` element would need re-qualifying)
     foreign = {}
